@@ -114,6 +114,7 @@ func simConfig(c *Config, trace bool) simrt.Config {
 		VirtualCPUs: c.CPUs,
 		Trace:       trace,
 		PoolDropPct: c.PoolDropPct,
+		PStall:      c.PStall,
 		MaxSteps:    c.MaxSteps,
 	}
 	for _, q := range c.Quanta {
